@@ -769,3 +769,26 @@ def check_nan_safe_ranges(ctx, rule, mods, floor):
     ctx.ob(rule, 'positive range tests', '%d range tests are written positively' % n_in, True, nontrivial=False)
     if n_in < floor:
         raise AnalysisError('%s: only %d positive range tests recognised (expected at least %d)' % (rule, n_in, floor))
+
+
+def check_element_order(ctx, rule, ix, modules, what='the results are put back with a C-order reshape'):
+    """Flatten / reshape calls of the given modules use one element order (C).  Returns the number of calls seen."""
+    n = 0
+    for mq in modules:
+        mod = ix.module(mq)
+        for node in ast.walk(mod.tree):
+            if not isinstance(node, ast.Call) or not isinstance(node.func, ast.Attribute):
+                continue
+            if node.func.attr not in ('ravel', 'flatten', 'reshape', 'asfortranarray') and unparse(node.func) != 'np.reshape':
+                continue
+            n += 1
+            order = [k.value for k in node.keywords if k.arg == 'order']
+            pos = node.args[0] if node.func.attr in ('ravel', 'flatten') and node.args else None
+            o = order[0] if order else pos
+            ok = o is None or (isinstance(o, ast.Constant) and o.value == 'C')
+            ok = ok and node.func.attr != 'asfortranarray'
+            ctx.ob(rule, '%s `%s`' % (mq, unparse(node)[:60]), 'flattening and reshaping use C order', ok,
+                   detail='`%s` in %s flattens / reshapes in an element order other than C while %s: for non-contiguous '
+                          '(transposed, Fortran-ordered) input the values land at the positions of other elements' % (unparse(node)[:80], mq, what),
+                   where='%s:%d' % (mod.relpath, node.lineno))
+    return n
